@@ -30,6 +30,12 @@ def classes(opA, opB, kind):
     return {"C02"}
 
 
+# other starting situations: two messages due in one scan while an answer for the first arrives (what the scan has taken
+# off the heap and what it leaves there); Empty while a message requeued with a delay by a connected consumer waits
+EXTRA = [("SCAN", "FIN", "NONE", "twoflight"), ("SCAN", "REQ0", "NONE", "twoflight"), ("SCAN", "TOUCH", "NONE", "twoflight"),
+         ("SCAN", "EMPTY", "NONE", "twoflight"), ("EMPTY", "DELIVER", "NONE", "k1deferred"), ("EMPTY", "SCAN", "NONE", "k1deferred")]
+
+
 def all_pairs():
     ps = []
     for a, b in itertools.combinations(OPS, 2):
@@ -37,7 +43,7 @@ def all_pairs():
             continue
         ps.append((a, b))
     ps.append(("SCAN", "SCAN"))
-    return ps
+    return ps + EXTRA
 
 
 # three operations at once, from the situation "k2 parked in its receive with RDY 1, queue empty": what a message that
@@ -69,7 +75,22 @@ def early_releases(ops, sched):
             if ops[y] == "SCAN" and pcs[y] == 3 and holder and y not in done:
                 done.add(y)
                 out.append({"after": i + 1, "actor": y})
+        # the graceful shutdown waits on the channel's exitMutex for a timeout scan, REQ or TOUCH that is inside: it is
+        # started while they are (it must then sit there until they are through -- "launch": not started yet)
+        inside = [y for y in ops if (ops[y] == "SCAN" and 2 <= pcs[y] <= 3) or (ops[y] in ("REQ0", "TOUCH") and 2 <= pcs[y] <= 4)]
+        for y in ops:
+            if ops[y] == "EXIT" and pcs[y] == 1 and inside:
+                out.append({"after": i + 1, "actor": y, "launch": True})    # one candidate per position inside (see variants())
     return out
+
+
+def variants(case):
+    """A schedule with several points at which the shutdown could be started early becomes one case per point."""
+    launches = [e for e in case["early"] if e.get("launch")]
+    rest = [e for e in case["early"] if not e.get("launch")]
+    if not launches:
+        return [case]
+    return [dict(case, early=rest + [l]) for l in launches]
 
 
 def enumerate_schedules(ctx, pairs):
@@ -97,12 +118,12 @@ def enumerate_schedules(ctx, pairs):
             ops = {"A": v[0], "B": v[1]}
             if v[2] != "NONE":
                 ops["C"] = v[2]
-            cases.append({"opA": v[0], "opB": v[1], "opC": v[2], "situation": v[3], "sched": sched,
+            cases.extend(variants({"opA": v[0], "opB": v[1], "opC": v[2], "situation": v[3], "sched": sched,
                           "early": early_releases(ops, sched),
                           "crashed": tail[0] == "TRUE", "nifm": int(tail[1]),
                           "nq": int(tail[2]), "cnt1": int(tail[3]), "cnt2": int(tail[4]), "nheap": int(tail[5]),
                           "fin_m1": tail[6] == "TRUE", "disk_m1": tail[7] == "TRUE", "disk_m2": tail[8] == "TRUE",
-                          "nifm1": int(tail[9]), "nifm2": int(tail[10])})
+                          "nifm1": int(tail[9]), "nifm2": int(tail[10])}))
         if n == 0:
             raise Inconclusive("no schedule printed for %s|%s" % (a, b))
     # collapse schedules that differ only in the free actor's steps
@@ -200,6 +221,8 @@ def judge(ctx, prop, obs):
             bad.append(("crash", "the daemon panicked: " + o["traceback"].strip().splitlines()[0][:200] + " ... " +
                         " | ".join(l.strip() for l in o["traceback"].splitlines() if "nsqd/" in l)[:400]))
         elif "EXIT" in (c["opA"], c["opB"]):
+            if o.get("breach"):
+                ctx.notes.setdefault("exit_breaches", []).append(pair + ":" + sched)
             if o.get("blocked"):
                 bad.append(("blocked", o["blocked"]))
             elif o.get("restarted"):
@@ -207,7 +230,9 @@ def judge(ctx, prop, obs):
                 if "EMPTY" in (c["opA"], c["opB"]):
                     pass          # an Empty in progress may legitimately discard either message
                 elif not o["fin_m1"] and not o["back_m1"]:
-                    bad.append(("lost", "m1 (in flight to k1, not finished) did not come back after graceful shutdown + restart"))
+                    bad.append(("lost", "m1 (in flight to k1, not finished) did not come back after graceful shutdown + restart"
+                                + (" -- the shutdown had been requested while the other operation was inside the section that "
+                                   "holds Channel.Close off, and it went ahead" if o.get("breach") else "")))
                 if not o["back_m2"] and "EMPTY" not in (c["opA"], c["opB"]):
                     bad.append(("lost", "m2 (queued, never finished) did not come back after graceful shutdown + restart"))
         else:
@@ -272,7 +297,7 @@ def run_pairs(ctx, prop, pairs=None, sample=None):
         rng = random.Random(ctx.seed)
         # always keep the schedules TLC marks as breaking an invariant of NsqdCore, sample the rest
         keep = [c for c in cases if c["crashed"] or c["cnt1"] < 0 or c["cnt2"] < 0 or c["cnt1"] + c["cnt2"] != c["nifm"] or c["nifm"] != c["nheap"]
-                or c.get("opC", "NONE") != "NONE"]
+                or c.get("opC", "NONE") != "NONE" or c.get("situation", "std") != "std" or any(e.get("launch") for e in c.get("early") or [])]
         rest = [c for c in cases if c not in keep]
         rng.shuffle(rest)
         cases = keep + rest[:max(0, sample - len(keep))]
